@@ -106,6 +106,7 @@ class ExtendedEOF(EOF):
                 check_nans=False,
                 sample_name=self.sample_name,
                 feature_name=self.feature_name,
+                random_state=self._params["random_state"],
                 solver_kwargs=self._params["solver_kwargs"],
             )
             if n_pca_modes
@@ -146,6 +147,7 @@ class ExtendedEOF(EOF):
             sample_name=self.sample_name,
             feature_name=self.feature_name,
             solver=self._params["solver"],
+            random_state=self._params["random_state"],
             solver_kwargs=self._params["solver_kwargs"],
         )
         model.fit(X_extended, dim=self.sample_name)
